@@ -157,3 +157,57 @@ pub fn lex_stream(casefile: &str)
 		println!("{}\t{}\t{}", id, a, d);
 	}
 }
+
+/// `fuzz`: run the real token fuzzer (no injected mistakes) and lex its output
+/// with both lexers.  Case payload: requested kilobytes.
+pub fn fuzz_stream(casefile: &str)
+{
+	for (id, payload) in crate::util::read_cases(casefile)
+	{
+		let kb: usize = String::from_utf8_lossy(&payload).trim().parse().unwrap_or(1);
+		let res = crate::util::guarded(move || {
+			let capacity = kb * 1096;
+			let mut buffer = String::with_capacity(capacity);
+			fuzzer::fill_to_capacity_with_tokens(95, &mut buffer, 0).unwrap();
+			let d = lexer::lex(buffer.as_bytes(), "f");
+			let derr: Vec<u16> = d.errors().map(|e| e.codes()).unwrap_or_default();
+			let a = penne::alpha::lexer::lex(&buffer, "f");
+			let mut aerr: Vec<String> = Vec::new();
+			let mut first_bad: Option<usize> = None;
+			for t in &a
+			{
+				if let Err(e) = &t.result
+				{
+					aerr.push(format!("{:?}", e));
+					if first_bad.is_none()
+					{
+						first_bad = Some(t.location.span.start);
+					}
+				}
+			}
+			let excerpt = match first_bad
+			{
+				Some(p) =>
+				{
+					let chars: Vec<char> = buffer.chars().collect();
+					let s = p.saturating_sub(30);
+					let e = (p + 30).min(chars.len());
+					crate::util::escape(chars[s..e].iter().collect::<String>().as_bytes())
+				}
+				None => String::new(),
+			};
+			format!(
+				"len={} kb={} delta_errors={} alpha_errors={} delta_tokens={} alpha_tokens={}\t{}\t{}",
+				buffer.len(),
+				kb,
+				crate::util::codes_to_string(&derr),
+				aerr.len(),
+				d.base_tokens().len(),
+				a.len(),
+				excerpt,
+				if derr.is_empty() && aerr.is_empty() { String::new() } else { crate::util::escape(buffer.as_bytes()) }
+			)
+		});
+		println!("{}\t{}", id, res);
+	}
+}
